@@ -34,6 +34,8 @@ Definition ref_shapes : list (string * string) := [
   ("recoverFromPanic", "{ if v1 := recover(); v1 != nil { p.handlePanic(v1) } }");
   ("handlePanic", "{ p.shutdown(true) fmt.Printf(""Caught panic:\n\n%s\n\nRestoring terminal...\n\n"", v1) debug.PrintStack() }");
   ("initCancelReader", "{ if v1 && p.cancelReader != nil { p.cancelReader.Cancel() p.waitForReadLoop() } var v2 error p.cancelReader, v2 = newInputReader(p.input, p.mouseMode) if v2 != nil { return fmt.Errorf(""error creating cancelreader: %w"", v2) } p.readLoopDone = make(chan struct{}) go p.readLoop() return nil }");
+  ("Every", "{ v1 := time.Now() v2 := v1.Truncate(v3).Add(v3).Sub(v1) v4 := time.NewTimer(v2) return func() Msg { v5 := <-v4.C v4.Stop() for len(v4.C) > 0 { <-v4.C } return v6(v5) } }");
+  ("Tick", "{ v1 := time.NewTimer(v2) return func() Msg { v3 := <-v1.C v1.Stop() for len(v1.C) > 0 { <-v1.C } return v4(v3) } }");
   ("eventLoop:sequenceMsg", "go func() { for _, v1 := range v2 { if v1 == nil { continue } v3 := v1() if v4, v5 := v3.(BatchMsg); v5 { v6, _ := errgroup.WithContext(p.ctx) for _, v7 := range v4 { v8 := v7 v6.Go(func() error { p.Send(v8()) return nil }) } v6.Wait() continue } p.Send(v3) } }()");
   ("eventLoop:BatchMsg", "for _, v1 := range v2 { select { case <-p.ctx.Done(): return v3, nil case v4 <- v1: } } ; continue")
 ].
